@@ -234,6 +234,16 @@ def evaluate(e: ast.AST, env: Dict[str, object]):
             if isinstance(i, ALen) and i.is_const() and -len(base.items) <= i.const < len(base.items):
                 return base.items[i.const]
             raise Unknown("list subscript")
+        if isinstance(base, AStr) and not isinstance(sl, ast.Slice):
+            # a single character k[n]
+            off = evaluate(sl, env)
+            if isinstance(off, ALen):
+                rest = _drop_prefix(base, off)
+                if rest.segs and isinstance(rest.segs[0], Lit):
+                    return mk(rest.segs[0].text[0])
+                if rest.segs and isinstance(rest.segs[0], Int):
+                    raise Mismatch(f"reads a single character of the index {{{rest.segs[0].sym}}}: only one-digit indices are decoded")
+            raise Unknown("character subscript")
         if isinstance(base, AStr) and isinstance(sl, ast.Slice) and sl.step is None:
             if sl.upper is not None:
                 lo = evaluate(sl.lower, env) if sl.lower is not None else ALen(0)
